@@ -213,9 +213,11 @@ def tail_neighbours(name, s, rng):
     if name == "rpm" and rng.random() < 0.6:
         # before the release, the release, after it: one base with `~`, plain, and with `^`
         out += [base + "~rc1", base, base + "^git1"]
-    for pre in PREFIXES.get(name, []):
-        if rng.random() < 0.3:
-            out.append(pre + s)
+    pres = PREFIXES.get(name, [])
+    if pres and rng.random() < 0.7:
+        # two of them, so that the prefixed spellings also meet each other (`:1.0` / `0:1.0`)
+        for pre in pres[:1] + rng.sample(pres[1:], min(1, len(pres) - 1)):
+            out.append(pre + s.split(":")[-1] if pre.endswith(":") else pre + s)
     return [t for t in out if t != s]
 
 
